@@ -13,13 +13,20 @@ SPEC = Spec(
     rule="each case = one configuration of the REAL exporter of one signal (exporterhelper.NewLogs/NewTraces/NewMetrics, or in 3/4 of "
          "the cases New<Signal>Request with a thin wrapper around the helper's own request type that makes the batcher's MergeSplit "
          "calls observable): obsreport -> queue/batcher -> retry -> timeout -> pusher; queue {memory, persistent (map storage, "
-         "requests- or items-sized), none+legacy batcher} x sizer {requests, items} x capacity (small = refusals / large) x consumers "
+         "requests- or items-sized), none+legacy batcher, none at all = QUEUE-LESS exporter (1/9 of the cases: no sending queue, no batcher, "
+         "retry on/off x timeout on/off, 1-3 producers calling Send directly and retrying against a failing backend at the shutdown; "
+         "only 'no export call begins after Shutdown returned' is applied, not replayed through the LTS)} x sizer {requests, items; bytes for "
+         "1/3 of the memory-queue + sending_queue::batch cases: merges and splits by encoded size} x capacity (small = refusals / large) x consumers "
          "1-3 x batch {none, sending_queue::batch, legacy WithBatcher; flush timeout 30ms/1s/1h, min 0-40, max 0 or >= min; "
          "split-heavy variant min 2-4, max = min..min+1 with requests up to 11 items} x retry {off, on: initial 10ms-1s, max elapsed "
-         "0/300ms/10s} x wait_for_result x block_on_overflow x timeout {0, 2s} x storage fault {none, plain Set writes fail from just "
-         "before Shutdown}; 1-12 sends of identified items at generated virtual instants, Shutdown requested at/near a send, a "
+         "0/300ms/10s} x wait_for_result x block_on_overflow x timeout {0, 2s} x storage fault AT SHUTDOWN {none; plain Set writes fail from just "
+         "before Shutdown = the size snapshot of an items-sized persistent queue, with or without sending_queue::batch; the storage client's "
+         "Close fails, reached by Shutdown when nothing is in flight or batched; persistent queues with either batcher included; every "
+         "oracle applies also when Shutdown returns an error} x context handed to Shutdown {live 1/2; cancelled during the drain / deadline "
+         "/ already done on entry, 1/6 each, after 1 ms-2.5 s; every clause applies unchanged whatever the context}; 1-12 sends of identified items at generated virtual instants, Shutdown requested at/near a send, a "
          "flush-timer or back-off instant, a slow call, or after everything, plus 0-2 late sends; backend script of up to 30 calls "
-         "(ok / transient / permanent, 0-3 s, 0-60% failures); 10 hand-made corpus schedules run first. All in one testing/synctest "
+         "(ok / transient / permanent incl. partial failures, 0-3 s, 0-60% failures); 25 hand-made corpus schedules run first (cases 0-24 of c03Corpus: "
+         "11 = queue-less, 16-18 = storage faults at shutdown with a batcher, 19-21 = Shutdown context ends during the drain, 22-23 = bytes-sized). All in one testing/synctest "
          "bubble (virtual time). Persistent cases: storage decoded at return and a restart on the same storage. Every returned, "
          "replayable trace (no batching, or wrapper) is additionally REPLAYED THROUGH `fire` (hidden steps inferred; every fired "
          "label must be enabled). non-trivial = at the shutdown request some accepted item had not finished an export call "
